@@ -186,9 +186,38 @@ func runHistory(c *rig.Check, sp spec) {
 	}
 	seen := map[string]bool{}
 	imgDir := filepath.Join(root, "img")
+	through := make([]int, len(h.Steps))
+	issued := 0
+	for i, s := range h.Steps {
+		if s.Op == "write" {
+			issued += len(s.Ents)
+		}
+		through[i] = issued
+	}
 	for _, cp := range cps {
 		img := cp.Image(lg)
 		ex := stor.Expect(lg, lay, cp, img, main)
+		// Durability as the caller was told: every entry issued before a Sync / Close that returned nil
+		// (and completed before the crash point) must be there, whatever the engine did or did not fsync.
+		api := 0
+		for si, st := range h.Steps {
+			if (st.Op == "sync" || st.Op == "close") && tr.Res.Steps[si].Err == "" {
+				if end, ok := lay.StepEnd[si]; ok && end < cp.Op && through[si]-ex.BaseUpTo > api {
+					api = through[si] - ex.BaseUpTo
+				}
+			}
+		}
+		if ex.MainPresent && ex.BaseBroken == "" && api > ex.Durable {
+			c.Count("images_where_acknowledged_barrier_exceeds_fsynced_data", 1)
+			ex.Durable = api
+			var bs []int
+			for _, j := range ex.Boundaries {
+				if j >= api {
+					bs = append(bs, j)
+				}
+			}
+			ex.Boundaries = bs
+		}
 		key := fmt.Sprintf("%x/%d/%d/%v", stor.ImageHash(img), ex.Durable, ex.BaseUpTo, ex.MainPresent)
 		if seen[key] {
 			c.Count("images_deduplicated", 1)
